@@ -49,7 +49,12 @@ Print Assumptions C06_reopen_restores.
     low-level file operations of the next operation [op] (every earlier operation complete), under
     any buffer oracle.  The file left behind loads, and to the content the in-memory list had after
     [fl] or after one of the operations of [mid] (or after [op], when [op] had begun): whole
-    batches of whole operations, never a torn mixture. *)
+    batches of whole operations, never a torn mixture.  [mid] and [op] range over all operations
+    including the queries [Read]/[Query] (a read creates the memmap, after which overwrites reach
+    the file without passing through any file-object call); [j] ranges over every prefix of the
+    low-level operations of [op], the write through the memmap included, so "[op] complete and
+    nothing after it" (a history that ends without flush or close) is the kill point
+    [j = length (r_lops ...)]. *)
 Theorem C06_crash_safe : forall bs o pre fl mid op j,
   0 < bs -> wf bs (pre ++ fl :: mid ++ [op]) -> is_flush fl = true ->
   (forall m f i, start current bs o (pre ++ [fl]) = (m, f, i) -> m_init m = true) ->
@@ -58,6 +63,21 @@ Theorem C06_crash_safe : forall bs o pre fl mid op j,
     = Some (flat (spec (pre ++ fl :: firstn t (mid ++ [op])))).
 Proof. exact crash_safe. Qed.
 Print Assumptions C06_crash_safe.
+
+(** (4b) Queries anywhere in a history ([store[k]], [len(store)], [k in store], [len(store.array)])
+    do not raise on an initialised store and preserve what the store reports and the file as the
+    process sees it; [Query] changes nothing at all; the one side effect of [Read] is the memmap
+    (created with everything pending handed to the OS), which is part of the state that decides
+    in which order later header and data writes become durable. *)
+Theorem C06_queries_preserve : forall bs o ops q, 0 < bs -> wf bs ops -> is_query q = true ->
+  forall m f i, start current bs o ops = (m, f, i) ->
+  let h := hstep current bs o i m f q in
+  view bs (r_mem h) (r_file h) = view bs m f /\ full (r_file h) = full f /\
+  (m_init m = true -> r_err h = false) /\
+  (q = Query -> r_file h = f /\ r_mem h = m /\ r_lops h = []) /\
+  (forall k, q = Read k -> m_init m = true -> m_mmap (r_mem h) = true /\ (m_mmap m = false -> f_buf (r_file h) = [])).
+Proof. exact queries_preserve. Qed.
+Print Assumptions C06_queries_preserve.
 
 (** (5) Prefix stores.  [Open k] = [NpyStore(filename, batch_size, n_batches=k)] over the existing
     file: a store whose [n_batches] may be smaller than the number of batches in the file (the same
@@ -142,6 +162,44 @@ Proof.
   intros [|[|[|t]]] Ht; vm_compute; discriminate.
 Qed.
 Print Assumptions C06_old_setitem_refuted.
+
+(** A pending header that is only handed to the file object ([_write_header_data] without
+    [fs.flush()]) before the write through the memmap is not enough, and it takes a *read* between
+    the append and the overwrite to see it: history [append A; flush; append B; read 0; overwrite 0
+    with X] under an oracle that keeps small writes in the buffer, killed after the overwrite (end
+    of the history, nothing flushed or closed): the file loads to [X].  Without the read the
+    overwrite itself creates the memmap, whose [seek(0, 2)] commits the header first (second
+    statement: every kill point of that shorter history is safe). *)
+Theorem C06_unflushed_header_refuted :
+  (exists bs o pre fl mid op j c,
+    wf bs (pre ++ fl :: mid ++ [op]) /\ is_flush fl = true /\ existsb is_query mid = true /\
+    (forall m f i, start unflushed_setitem bs o (pre ++ [fl]) = (m, f, i) -> m_init m = true) /\
+    loads (crash_disk unflushed_setitem bs o (pre ++ fl :: mid) op j) = Some c /\
+    forall t, t <= length mid + 1 -> c <> flat (spec (pre ++ fl :: firstn t (mid ++ [op])))) /\
+  (forall j, exists t, t <= 2 /\
+    loads (crash_disk unflushed_setitem 1 (fun _ => 0) [Set_ 0 true [[1%N]]; Flush; Set_ 1 true [[2%N]]] (Set_ 0 true [[3%N]]) j)
+    = Some (flat (spec ([Set_ 0 true [[1%N]]; Flush] ++ firstn t [Set_ 1 true [[2%N]]; Set_ 0 true [[3%N]]])))).
+Proof.
+  split.
+  - exists 1, (fun _ => 0), [Set_ 0 true [[1%N]]], Flush, [Set_ 1 true [[2%N]]; Read 0], (Set_ 0 true [[3%N]]), 3, [[3%N]].
+    split; [repeat constructor|]. split; [reflexivity|]. split; [reflexivity|].
+    split; [intros m f i E; vm_compute in E; now inversion E|]. split; [vm_compute; reflexivity|].
+    intros [|[|[|[|t]]]] Ht; vm_compute; discriminate.
+  - intros [|[|[|[|[|j]]]]]; [exists 0|exists 0|exists 0|exists 1|exists 2|exists 2]; (split; [repeat constructor|]); vm_compute; reflexivity.
+Qed.
+Print Assumptions C06_unflushed_header_refuted.
+
+(** the same five-operation history with the current code: the overwrite issues seek, header,
+    flush (the header is pending), no seek-to-end (the memmap exists), the memmap write; its kill
+    points leave [A] (the header on disk still declares one row), [A B] once the flush is done, and
+    [X B] after the memmap write -- all contents the list went through since the flush.  With the
+    header only handed to the buffer, the memmap write finds the one-row header on disk: [X]. *)
+Example C06_example_read_then_overwrite :
+  map (fun j => loads (crash_disk current 1 (fun _ => 0) [Set_ 0 true [[1%N]]; Flush; Set_ 1 true [[2%N]]; Read 0] (Set_ 0 true [[3%N]]) j)) (seq 0 5)
+  = [ Some [[1]]; Some [[1]]; Some [[1]]; Some [[1];[2]]; Some [[3];[2]] ]%N /\
+  map (fun j => loads (crash_disk unflushed_setitem 1 (fun _ => 0) [Set_ 0 true [[1%N]]; Flush; Set_ 1 true [[2%N]]; Read 0] (Set_ 0 true [[3%N]]) j)) (seq 0 4)
+  = [ Some [[1]]; Some [[1]]; Some [[1]]; Some [[3]] ]%N.
+Proof. split; vm_compute; reflexivity. Qed.
 
 (** Non-vacuity: the hypotheses of (4) hold on a concrete history (two appends, flush, append,
     overwrite, delete-last in progress), and with the current code every kill point of the
